@@ -1,5 +1,14 @@
-(* C03: the complexity the model computes is the McCabe number: one plus the decision points
-   (if / elif tests, loops, except handlers, comprehension for/if clauses) that are not in dead code. *)
+(* C03: the complexity the model computes against the McCabe number of the property: one plus the decision points
+   (if / elif tests, loops, except handlers, EVERY for and EVERY if clause of a statement-level comprehension) that are
+   not in dead code.
+   The model (Flow.comp_cx, mirroring processComprehension of cfg_builder.go: one filter block per for clause) counts at
+   most ONE if per for clause, so the equation "complexity = mccabe" is FALSE as soon as a live comprehension has a for
+   clause with two or more ifs (finding F8).  What holds, for every body of the construct list:
+     complexity body + surplus_ifs dead body = mccabe dead body              (complexity_plus_surplus_is_mccabe)
+   where surplus_ifs counts nifs - 1 for every for clause with nifs >= 2 of the comprehensions outside dead code;
+   hence complexity = mccabe exactly when there is no such clause (complexity_is_mccabe_iff), in particular under the
+   syntactic condition comps_single_if (complexity_is_mccabe_single_if); the smallest counterexample is
+   complexity_is_mccabe_refuted. *)
 From Coq Require Import NArith Arith List Bool Lia.
 From PV Require Import Py.PyAST Cfg.Flow Cfg.FlowSpec Cfg.FlowSound.
 Import ListNotations.
@@ -29,18 +38,113 @@ Proof. intros H. rewrite (H k L (or_introl eq_refl)). destruct (isdead dead k); 
 Definition on (o : option res) : list (N * bool) := match o with Some r => rmarks r | None => [] end.
 Definition ocx (o : option res) : nat := match o with Some r => rcx r | None => 0 end.
 
-Lemma comp_same cl : comp_cx cl = comp_weight cl.
-Proof. reflexivity. Qed.
+(* ---- what the code does not count: the if clauses after the first one of each for clause ---- *)
+Definition comp_extra (clauses : list nat) : nat :=
+  fold_right (fun nifs acc => (nifs - 1) + acc) 0 clauses.
+
+Lemma comp_cx_extra cl : comp_cx cl + comp_extra cl = comp_weight cl.
+Proof.
+  induction cl as [|n cl IH]; [reflexivity|].
+  change (comp_cx (n :: cl)) with (1 + (if Nat.ltb 0 n then 1 else 0) + comp_cx cl).
+  change (comp_extra (n :: cl)) with ((n - 1) + comp_extra cl).
+  change (comp_weight (n :: cl)) with (1 + n + comp_weight cl).
+  destruct n as [|n]; cbn [Nat.ltb Nat.leb]; lia.
+Qed.
+
+(* every clause has at most one if: then the code's count is the property's *)
+Definition clauses_single_if (clauses : list nat) : bool := forallb (fun nifs => Nat.leb nifs 1) clauses.
+
+Lemma comp_extra_single cl : clauses_single_if cl = true -> comp_extra cl = 0.
+Proof.
+  induction cl as [|n cl IH]; [reflexivity|]. cbn [clauses_single_if forallb comp_extra fold_right]. intro H.
+  apply andb_true_iff in H. destruct H as (Hn & Hcl). apply Nat.leb_le in Hn. fold (comp_extra cl).
+  rewrite (IH Hcl). lia.
+Qed.
+
+Lemma comp_extra_zero cl : comp_extra cl = 0 -> clauses_single_if cl = true.
+Proof.
+  induction cl as [|n cl IH]; [reflexivity|]. cbn [clauses_single_if forallb comp_extra fold_right]. fold (comp_extra cl).
+  intro H. apply andb_true_iff. split; [apply Nat.leb_le; lia|apply IH; lia].
+Qed.
+
+(* (comprehension id, surplus if clauses) of one function: same traversal as FlowSpec.dec_stmt (nested defs are functions of
+   their own, class bodies belong to the enclosing function) *)
+Fixpoint ext_stmt (s : stmt) {struct s} : list (N * nat) :=
+  match s with
+  | Simple _ | Pass _ | Return _ | Raise _ | Break _ | Continue _ | Def _ _ _ => []
+  | Comp k cl => [(k, comp_extra cl)]
+  | If _ body elifs els => ext_block body ++ ext_arms elifs ++ ext_oblock els
+  | While _ body els | For _ body els => ext_block body ++ ext_oblock els
+  | Try _ body handlers els fin => ext_block body ++ ext_arms handlers ++ ext_oblock els ++ ext_oblock fin
+  | With _ body => ext_block body
+  | Match _ cases => ext_arms cases
+  | Class _ _ body => ext_block body
+  end
+with ext_block (b : block) {struct b} : list (N * nat) :=
+  match b with BNil => [] | BCons s b' => ext_stmt s ++ ext_block b' end
+with ext_arms (a : arms) {struct a} : list (N * nat) :=
+  match a with ANil => [] | ACons _ b a' => ext_block b ++ ext_arms a' end
+with ext_oblock (o : oblock) {struct o} : list (N * nat) :=
+  match o with ONone => [] | OSome b => ext_block b end.
+
+(* the if clauses the code misses: nifs - 1 for every for clause with nifs >= 2 of the comprehensions that are not
+   among the statements reported dead *)
+Definition surplus_ifs (dead : list N) (body : block) : nat := wsum dead (ext_block body).
+
+(* syntactic sufficient condition: every for clause of every statement-level comprehension of the function (any nesting
+   depth; nested defs excluded exactly as in the spec's dec_stmt) carries at most one if *)
+Fixpoint single_stmt (s : stmt) {struct s} : bool :=
+  match s with
+  | Simple _ | Pass _ | Return _ | Raise _ | Break _ | Continue _ | Def _ _ _ => true
+  | Comp _ cl => clauses_single_if cl
+  | If _ body elifs els => single_block body && single_arms elifs && single_oblock els
+  | While _ body els | For _ body els => single_block body && single_oblock els
+  | Try _ body handlers els fin => single_block body && single_arms handlers && single_oblock els && single_oblock fin
+  | With _ body => single_block body
+  | Match _ cases => single_arms cases
+  | Class _ _ body => single_block body
+  end
+with single_block (b : block) {struct b} : bool :=
+  match b with BNil => true | BCons s b' => single_stmt s && single_block b' end
+with single_arms (a : arms) {struct a} : bool :=
+  match a with ANil => true | ACons _ b a' => single_block b && single_arms a' end
+with single_oblock (o : oblock) {struct o} : bool :=
+  match o with ONone => true | OSome b => single_block b end.
+
+Definition comps_single_if (body : block) : bool := single_block body.
+
+Lemma single_no_extra dead :
+  (forall s, single_stmt s = true -> wsum dead (ext_stmt s) = 0) /\
+  (forall b, single_block b = true -> wsum dead (ext_block b) = 0) /\
+  (forall a, single_arms a = true -> wsum dead (ext_arms a) = 0) /\
+  (forall o, single_oblock o = true -> wsum dead (ext_oblock o) = 0).
+Proof.
+  apply ast_mutind; intros; cbn [ext_stmt ext_block ext_arms ext_oblock single_stmt single_block single_arms single_oblock] in *;
+  try reflexivity;
+  repeat match goal with
+  | H : _ && _ = true |- _ => apply andb_true_iff in H; destruct H
+  end; rewrite ?wsum_app;
+  repeat match goal with
+  | IH : ?P = true -> _ = 0, H : ?P = true |- _ => rewrite (IH H); clear IH
+  end; try reflexivity.
+  (* Comp *) cbn [wsum fold_right fst snd]. rewrite comp_extra_single by assumption. destruct (isdead dead k); reflexivity.
+Qed.
+
+Lemma surplus_single_if dead body : comps_single_if body = true -> surplus_ifs dead body = 0.
+Proof. intro H. destruct (single_no_extra dead) as (_ & Hb & _). exact (Hb body H). Qed.
 
 Section Fix.
 Variable dead : list N.
 
 Lemma cx_wsum :
-  (forall s L, c03_stmt s = true -> agree dead (rmarks (flow_stmt L s)) -> rcx (flow_stmt L s) = wsum dead (dec_stmt s)) /\
-  (forall b L, c03_block b = true -> agree dead (rmarks (flow_block L b)) -> rcx (flow_block L b) = wsum dead (dec_block b)) /\
+  (forall s L, c03_stmt s = true -> agree dead (rmarks (flow_stmt L s)) ->
+               rcx (flow_stmt L s) + wsum dead (ext_stmt s) = wsum dead (dec_stmt s)) /\
+  (forall b L, c03_block b = true -> agree dead (rmarks (flow_block L b)) ->
+               rcx (flow_block L b) + wsum dead (ext_block b) = wsum dead (dec_block b)) /\
   (forall a L, c03_arms a = true -> agree dead (rmarks (flow_arms L a)) ->
-               gate L (arms_length a) + rcx (flow_arms L a) = wsum dead (dec_elifs a)) /\
-  (forall o L, c03_oblock o = true -> agree dead (on (flow_oblock L o)) -> ocx (flow_oblock L o) = wsum dead (dec_oblock o)).
+               gate L (arms_length a) + rcx (flow_arms L a) + wsum dead (ext_arms a) = wsum dead (dec_elifs a)) /\
+  (forall o L, c03_oblock o = true -> agree dead (on (flow_oblock L o)) ->
+               ocx (flow_oblock L o) + wsum dead (ext_oblock o) = wsum dead (dec_oblock o)).
 Proof.
   apply ast_mutind; intros; simpl in *; try discriminate; try reflexivity;
   repeat match goal with
@@ -70,7 +174,7 @@ Proof.
   - (* Try (no finally) *) destruct fin; [|discriminate]. simpl in *. rewrite ?app_nil_r in *.
     pose proof (H L ltac:(assumption) ltac:(assumption)). pose proof (H0 L ltac:(assumption) ltac:(assumption)).
     pose proof (H1 (rn (flow_block L body)) ltac:(assumption) ltac:(assumption)). lia.
-  - (* Comp *) pose proof (G (comp_cx clauses)). rewrite comp_same in *. lia.
+  - (* Comp *) pose proof (G (comp_cx clauses)). pose proof (comp_cx_extra clauses). destruct (isdead dead k); lia.
   - (* Class *) apply H; assumption.
   - (* BCons *) pose proof (H L ltac:(assumption) ltac:(assumption)).
     pose proof (H0 (rn (flow_stmt L s)) ltac:(assumption) ltac:(assumption)). lia.
@@ -98,12 +202,39 @@ Proof.
     congruence.
 Qed.
 
-Theorem complexity_is_mccabe body :
+(* the exact relation between the model's count and the property's: the code misses the surplus if clauses, nothing else *)
+Theorem complexity_plus_surplus_is_mccabe body :
   c03_block body = true -> NoDup (map fst (fn_marks body)) ->
+  complexity body + surplus_ifs (dead_ids body) body = mccabe (dead_ids body) body.
+Proof.
+  intros C ND. unfold complexity, surplus_ifs. rewrite mccabe_wsum.
+  destruct (cx_wsum (dead_ids body)) as (_ & Hb & _).
+  rewrite <- (Hb body true C (agree_dead_ids body ND)). reflexivity.
+Qed.
+
+Corollary complexity_is_mccabe_iff body :
+  c03_block body = true -> NoDup (map fst (fn_marks body)) ->
+  (complexity body = mccabe (dead_ids body) body <-> surplus_ifs (dead_ids body) body = 0).
+Proof. intros C ND. pose proof (complexity_plus_surplus_is_mccabe body C ND). lia. Qed.
+
+(* the old equation, under the condition that no for clause of a comprehension has two ifs *)
+Corollary complexity_is_mccabe_single_if body :
+  c03_block body = true -> NoDup (map fst (fn_marks body)) -> comps_single_if body = true ->
   complexity body = mccabe (dead_ids body) body.
 Proof.
-  intros C ND. unfold complexity. rewrite mccabe_wsum. f_equal.
-  destruct (cx_wsum (dead_ids body)) as (_ & Hb & _). apply Hb; [exact C|]. apply agree_dead_ids. exact ND.
+  intros C ND S1. apply (complexity_is_mccabe_iff body C ND). apply surplus_single_if. exact S1.
+Qed.
+
+(* without it the equation is false: [_ for _ in xs if a if b] alone in a function *)
+Definition comp_if_witness : block := BCons (Comp 1 [2]) BNil.
+
+Theorem complexity_is_mccabe_refuted :
+  exists body, c03_block body = true /\ NoDup (map fst (fn_marks body)) /\
+               complexity body = 3 /\ mccabe (dead_ids body) body = 4 /\
+               complexity body <> mccabe (dead_ids body) body.
+Proof.
+  exists comp_if_witness. split; [reflexivity|]. split; [repeat constructor; intros []|].
+  split; [reflexivity|]. split; [reflexivity|]. vm_compute. discriminate.
 Qed.
 
 (* risk level table *)
